@@ -77,18 +77,28 @@ type MArg struct {
 	Max  int `json:"max"`
 }
 
+// FindObs: one look-up through the public API on the finished parser.  Cmd 0 = the parser itself
+// (Parser.FindOptionByLongName / ...ByShortName / Find), k > 0 = its k-th top-level command.
+type FindObs struct {
+	Cmd   int    `json:"cmd"`
+	Kind  string `json:"kind"` // long | short | cmd
+	Name  S      `json:"name"`
+	Field S      `json:"field"` // the struct field name of the option found (command: its name); empty = nil
+}
+
 type DeclObs struct {
-	Panic    bool     `json:"panic"`
-	Timeout  bool     `json:"timeout"`
-	PanicMsg S        `json:"panicMsg"`
-	Err      string   `json:"err"` // none | ErrTag | ErrShortNameTooLong | ErrInvalidTag | ErrDuplicatedFlag | other
-	ErrMsg   S        `json:"errMsg"`
-	Opts     []MOpt   `json:"opts"`
-	Groups   []MGroup `json:"groups"`
-	Cmds     []MCmd   `json:"cmds"`
-	Args     []MArg   `json:"args"`
-	ArgsReq  bool     `json:"argsReq"`
-	Distinct int      `json:"distinct"`
+	Panic    bool      `json:"panic"`
+	Timeout  bool      `json:"timeout"`
+	PanicMsg S         `json:"panicMsg"`
+	Err      string    `json:"err"` // none | ErrTag | ErrShortNameTooLong | ErrInvalidTag | ErrDuplicatedFlag | other
+	ErrMsg   S         `json:"errMsg"`
+	Opts     []MOpt    `json:"opts"`
+	Groups   []MGroup  `json:"groups"`
+	Cmds     []MCmd    `json:"cmds"`
+	Args     []MArg    `json:"args"`
+	ArgsReq  bool      `json:"argsReq"`
+	Distinct int       `json:"distinct"`
+	Finds    []FindObs `json:"finds"`
 }
 
 var declTypes = map[string]reflect.Type{
@@ -118,7 +128,7 @@ func mopt(o *flags.Option) MOpt {
 }
 
 func runDecl(sc *DeclScn) *DeclObs {
-	obs := &DeclObs{Opts: []MOpt{}, Groups: []MGroup{}, Cmds: []MCmd{}, Args: []MArg{}, Err: "none"}
+	obs := &DeclObs{Opts: []MOpt{}, Groups: []MGroup{}, Cmds: []MCmd{}, Args: []MArg{}, Err: "none", Finds: []FindObs{}}
 	func() {
 		defer func() {
 			if r := recover(); r != nil {
@@ -169,6 +179,67 @@ func runDecl(sc *DeclScn) *DeclObs {
 			obs.Args = append(obs.Args, MArg{Name: toS(a.Name), Desc: toS(a.Description), Req: a.Required, Max: a.RequiredMaximum})
 		}
 		obs.ArgsReq = p.ArgsRequired
+		// look-ups: every long name (with namespaces) and short name that occurs anywhere in the declaration, and one that does not,
+		// asked of the parser and of each top-level command; every command name and alias asked of the parser
+		var longs, shorts []S
+		seenL, seenS := map[string]bool{}, map[int]bool{}
+		note := func(os []MOpt) {
+			for _, o := range os {
+				if len(o.NsLong) > 0 && !seenL[o.NsLong.String()] {
+					seenL[o.NsLong.String()] = true
+					longs = append(longs, o.NsLong)
+				}
+				if o.Short != 0 && !seenS[o.Short] {
+					seenS[o.Short] = true
+					shorts = append(shorts, S{o.Short})
+				}
+			}
+		}
+		note(obs.Opts)
+		for _, c := range obs.Cmds {
+			note(c.Opts)
+		}
+		longs = append(longs, toS("no.such"))
+		shorts = append(shorts, toS("~"))
+		fieldOf := func(o *flags.Option) S {
+			if o == nil {
+				return S{}
+			}
+			return toS(o.Field().Name)
+		}
+		cmds := p.Commands()
+		for k := 0; k <= len(cmds); k++ {
+			for _, l := range longs {
+				var o *flags.Option
+				if k == 0 {
+					o = p.FindOptionByLongName(l.String())
+				} else {
+					o = cmds[k-1].FindOptionByLongName(l.String())
+				}
+				obs.Finds = append(obs.Finds, FindObs{Cmd: k, Kind: "long", Name: l, Field: fieldOf(o)})
+			}
+			for _, sh := range shorts {
+				var o *flags.Option
+				if k == 0 {
+					o = p.FindOptionByShortName(rune(sh[0]))
+				} else {
+					o = cmds[k-1].FindOptionByShortName(rune(sh[0]))
+				}
+				obs.Finds = append(obs.Finds, FindObs{Cmd: k, Kind: "short", Name: sh, Field: fieldOf(o)})
+			}
+		}
+		names := []S{toS("no such")}
+		for _, c := range obs.Cmds {
+			names = append(names, c.Name)
+			names = append(names, c.Aliases...)
+		}
+		for _, n := range names {
+			f := S{}
+			if c := p.Find(n.String()); c != nil {
+				f = toS(c.Name)
+			}
+			obs.Finds = append(obs.Finds, FindObs{Cmd: 0, Kind: "cmd", Name: n, Field: f})
+		}
 	}()
 	return obs
 }
@@ -198,7 +269,7 @@ func init() {
 		crash: func(line []byte, timeout bool, msg string) any {
 			sc := &DeclScn{}
 			json.Unmarshal(line, sc)
-			sc.Obs = &DeclObs{Panic: !timeout, Timeout: timeout, PanicMsg: toS(msg), Opts: []MOpt{}, Groups: []MGroup{}, Cmds: []MCmd{}, Args: []MArg{}}
+			sc.Obs = &DeclObs{Panic: !timeout, Timeout: timeout, PanicMsg: toS(msg), Opts: []MOpt{}, Groups: []MGroup{}, Cmds: []MCmd{}, Args: []MArg{}, Finds: []FindObs{}}
 			return sc
 		},
 	}
